@@ -16,6 +16,106 @@ B = 'sim::asio::socket_base'
 P = 'sim::aux::packet'
 
 
+def _flag_after(f_, value):
+    """m_dont_fragment after set_option() for the option (IPPROTO_IP, IP_MTU_DISCOVER) with the given int value: the body
+    is interpreted (compound / if / switch / assignment / break / return) with const_eval deciding the conditions.
+    True / False / 'unset' (never written) / 'unknown'."""
+    env = {}
+
+    def leaf(t):
+        t = t.replace('this->', '')
+        if t in env and env[t] is not None:
+            return env[t]
+        if t in ('IPPROTO_IP',):
+            return 0
+        if any(op in t for op in ('==', '!=', '&&', '||', '<', '>')) and not t.startswith('*reinterpret_cast'):
+            return None
+        if 'opt.data(' in t:
+            return value
+        if t.startswith('opt.name('):
+            return 10
+        if t.startswith('opt.level('):
+            return 0
+        return None
+    st = {'df': 'unset'}
+
+    def writes_flag(s_):
+        return any(x['k'] == 'member' and x.get('name') == 'm_dont_fragment' for x in walk(s_))
+
+    def ex(s_, depth=0):
+        if not is_node(s_) or depth > 30:
+            return 'next'
+        k = s_['k']
+        if k == 'compound':
+            for ch in s_.get('ch', []):
+                fl = ex(ch, depth + 1)
+                if fl != 'next':
+                    return fl
+            return 'next'
+        if k == 'if':
+            c = q.const_eval(f_, s_['cond'], leaf)
+            if c is None:
+                if writes_flag(s_):
+                    st['df'] = 'unknown'
+                return 'next'
+            br = s_.get('then') if c else s_.get('else')
+            return ex(br, depth + 1) if br is not None else 'next'
+        if k == 'switch':
+            v = q.const_eval(f_, s_['cond'], leaf)
+            body = s_.get('body')
+            chs = body.get('ch', []) if is_node(body) and body['k'] == 'compound' else [body]
+            if v is None:
+                if writes_flag(s_):
+                    st['df'] = 'unknown'
+                return 'next'
+            flat = []
+            for ch in chs:
+                labels = []
+                while is_node(ch) and ch['k'] in ('case', 'default'):
+                    labels.append('default' if ch['k'] == 'default' else q.const_eval(f_, ch.get('v'), leaf))
+                    ch = ch.get('sub')
+                flat.append((labels, ch))
+            if any(None in l_ for l_, _ in flat):
+                st['df'] = 'unknown'
+                return 'next'
+            at = next((i_ for i_, (l_, _) in enumerate(flat) if v in [x for x in l_ if x != 'default']), None)
+            if at is None:
+                at = next((i_ for i_, (l_, _) in enumerate(flat) if 'default' in l_), None)
+            if at is None:
+                return 'next'
+            for _, ch in flat[at:]:
+                fl = ex(ch, depth + 1)
+                if fl == 'break':
+                    return 'next'
+                if fl != 'next':
+                    return fl
+            return 'next'
+        if k in ('return', 'break'):
+            return k
+        if k in ('while', 'for', 'do', 'try', 'range_for'):
+            if writes_flag(s_):
+                st['df'] = 'unknown'
+            return 'next'
+        if k == 'bin' and s_['op'] == '=':
+            l_ = q.strip_casts(s_['lhs'])
+            if is_node(l_) and l_['k'] == 'member' and l_.get('name') == 'm_dont_fragment':
+                v = q.const_eval(f_, s_['rhs'], leaf)
+                st['df'] = 'unknown' if v is None else bool(v)
+            elif is_node(l_) and l_['k'] == 'ref' and l_.get('dk') == 'local':
+                env[l_.get('name')] = q.const_eval(f_, s_['rhs'], leaf)      # a local the branches accumulate into
+            return 'next'
+        if k == 'decl':
+            for v_ in s_.get('vars', []):
+                if is_node(v_.get('init')):
+                    env[v_.get('name')] = q.const_eval(f_, v_['init'], leaf)
+            return 'next'
+        if k not in ('decl', 'null') and writes_flag(s_):
+            st['df'] = 'unknown'
+        return 'next'
+    ex(f_.body)
+    return st['df']
+
+
 def check(run):
     fx = run.fx
     run.clause('sibling rule: every function that attaches a channel sets m_mss from get_path_mtu(own address, peer address) and m_cwnd from m_mss')
@@ -167,15 +267,22 @@ def check(run):
     dfc = [a.site for a in q.field_accesses(ucl, {B + '::m_dont_fragment'}) if a.kind == 'assign' and q.strip_casts(a.site['rhs']).get('v') is False]
     run.check(bool(dfc) and q.on_all_paths(ucl, dfc), 'R7', 'df-goes-with-the-descriptor', U + '::close', ucl.loc(),
               'close(ec) leaves m_dont_fragment set: a socket closed and opened again (open() closes first) still discards datagrams above the path MTU although the option was never set on the new descriptor', 'cleared on every path of close(ec)')
-    so_ = [f_ for f_ in fx.fn(B + '::set_option') if f_.tmpl != 'pattern' or True]
-    probe_ok = False
-    for f_ in so_:
-        for a in q.field_accesses(f_, {B + '::m_dont_fragment'}):
-            if a.kind == 'assign' and is_node(a.site) and q.strip_casts(a.site['rhs']).get('v') is True:
-                if any((lambda c_: c_ and c_[0] == '==' and q.int_value(c_[2]) == 3)(q.cmp_atom(g_)) and p_ for g_, p_ in q.guards_at(f_, a.site)):
-                    probe_ok = True
-    run.check(probe_ok, 'R5', 'df-probe-sets-flag', B + '::set_option', so_[0].loc() if so_ else '',
-              'IP_MTU_DISCOVER = IP_PMTUDISC_PROBE (3) does not set the don\'t-fragment flag (and clears one set with IP_PMTUDISC_DO): on Linux probing puts DF on every datagram, so an oversized datagram must be discarded', 'value == IP_PMTUDISC_PROBE sets the flag')
+    so_ = [f_ for f_ in fx.fn(B + '::set_option') if f_.body is not None]
+    if not so_:
+        run.broke('socket_base::set_option has no body in the facts')
+    # set_option is interpreted for (level, name) = (IPPROTO_IP, IP_MTU_DISCOVER) and each value the option takes:
+    # the flag it leaves behind is what counts, however the test is written (==, ||, switch, a named local)
+    want = {0: False, 2: True, 3: True}     # IP_PMTUDISC_DONT, IP_PMTUDISC_DO, IP_PMTUDISC_PROBE
+    names = {0: 'IP_PMTUDISC_DONT', 2: 'IP_PMTUDISC_DO', 3: 'IP_PMTUDISC_PROBE'}
+    for f_ in so_[:1]:
+        got = {v_: _flag_after(f_, v_) for v_ in want}
+        if any(g_ == 'unknown' for g_ in got.values()):
+            run.unrecognised('R5', 'df-probe-sets-flag', B + '::set_option', f_.loc(), 'the value of m_dont_fragment after set_option(IPPROTO_IP, IP_MTU_DISCOVER, v) cannot be decided by interpretation (%s)' % got)
+            continue
+        bad = [v_ for v_ in want if got[v_] != want[v_]]
+        run.check(not bad, 'R5', 'df-probe-sets-flag', B + '::set_option', f_.loc(),
+                  'IP_MTU_DISCOVER = %s (%d) leaves m_dont_fragment %s: IP_PMTUDISC_DO and IP_PMTUDISC_PROBE put DF on every datagram (an oversized one must be discarded; PROBE must not clear a flag set with DO), IP_PMTUDISC_DONT clears it'
+                  % (names[bad[0]] if bad else '', bad[0] if bad else 0, got[bad[0]] if bad else ''), 'DONT -> clear, DO -> set, PROBE -> set (interpreted)')
     engines.r2_writer_table(run, B + '::m_dont_fragment', {B + '::set_option': 'the socket option', U + '::close': 'options go with the descriptor: a closed (and re-opened) socket has none', U + '::socket': 'the moved-from socket keeps no option'}, required=[B + '::set_option'])
     run.clause('only the don\'t-fragment option changes the flag: every write of m_dont_fragment in set_option is guarded by the option\'s LEVEL as well as its name (SO_OOBINLINE at SOL_SOCKET has the same number as IP_MTU_DISCOVER)')
     nw = 0
